@@ -168,10 +168,21 @@ def run_obligation(ob, workdir):
     if mx and len(cubes) > mx:
         step = len(cubes) / mx
         cubes = [cubes[int(i * step)] for i in range(mx)]
-    nchunk = max(1, min(NCPU, ob.get("procs", NCPU), len(cubes)))
+    nproc = max(1, min(NCPU, ob.get("procs", NCPU), len(cubes)))
+    # at least one chunk per worker; no chunk larger than ob["chunk"] cubes (slow obligations use small chunks so that one engine
+    # process never runs into its process timeout); interleaved so that every chunk sees all shape classes
+    nchunk = max(nproc, -(-len(cubes) // ob.get("chunk", 2000)))
     chunks = [cubes[i::nchunk] for i in range(nchunk)]
-    with ThreadPoolExecutor(max_workers=nchunk) as tp:
-        outs = list(tp.map(lambda ic: run_engine(ob, ic[1], workdir, "%s.%d" % (ob["name"], ic[0])), enumerate(chunks)))
+
+    def one(ic):
+        tag = "%s.%d" % (ob["name"], ic[0])
+        o = run_engine(ob, ic[1], workdir, tag)
+        if o.get("status") == "error":
+            # an engine process that died (killed, out of memory) is retried once before the chunk is reported as an engine error
+            o = run_engine(ob, ic[1], workdir, tag + "r")
+        return o
+    with ThreadPoolExecutor(max_workers=nproc) as tp:
+        outs = list(tp.map(one, enumerate(chunks)))
     return outs
 
 
